@@ -360,34 +360,57 @@ def plan_requests(rng, plan, n_random, covered, cap):
             push(dict(req))                              # the same page again
     feasible = feasible_pairs()
     cands = plan.candidates(rng)
-    everything = [c for c in cands if len({plan.info[i]["unit"] for i in c["in"]}) == len(units) and not c["out"]][:1]
+    everything = [c for c in cands if len({plan.info[i]["unit"] for i in c["in"]}) == len(units) and not c["out"]
+                  and not c.get("eager") and not c.get("ctx")][:1]
     empty = {"in": [], "out": []}
+    names = list(DIMS)
+
+    def pairs_missing(t, missing):
+        n = 0
+        got = []
+        for ai, A in enumerate(names):
+            ta = t.get(A, ())
+            for B in names[ai + 1:]:
+                tb = t.get(B, ())
+                for a in ta:
+                    for b in tb:
+                        p = (A, a, B, b)
+                        if p in missing:
+                            got.append(p)
+        return got
+
+    def search(pool, full, missing):
+        best, gain = None, 0.0
+        for c in pool:
+            options = [(False, [c]), (True, [c])]
+            if full:
+                options += [(False, [empty, c]), (False, [c, c]), (True, [empty, c]), (True, [c, c])]
+                if everything:
+                    options += [(False, [everything[0], c]), (False, [everything[0], empty])]
+                if len(c["in"]) > 1:
+                    half = {"in": c["in"][:1], "out": []}       # one of its units has been seen, the others have not
+                    options += [(True, [half, c]), (True, [half, empty, c])]
+            for fresh, seq in options:
+                s2, got = (plan.new_state() if fresh else st), set()
+                for r in seq:
+                    t, s2 = plan.tags(r, s2)
+                    got.update(pairs_missing(t, missing))
+                g = len(got) / (len(seq) + (0.5 if fresh else 0))
+                if g > gain:
+                    best, gain = (fresh, seq), g
+        return best
     refreshed = 0
     while total < cap:
         missing = feasible - covered
         if not missing:
             break
-        best, gain = None, 0.0
-        for c in cands:
-            options = [(False, [c]), (False, [empty, c]), (False, [c, c]), (True, [c]), (True, [empty, c]), (True, [c, c])]
-            if everything:
-                options += [(False, [everything[0], c]), (False, [everything[0], empty])]
-            if len(c["in"]) > 1:
-                half = {"in": c["in"][:1], "out": []}       # one of its units has been seen, the others have not
-                options += [(True, [half, c]), (True, [half, empty, c])]
-            for fresh, seq in options:
-                s2, got = (plan.new_state() if fresh else st), set()
-                for r in seq:
-                    t, s2 = plan.tags(r, s2)
-                    got |= sc.case_pairs(t, DIMS)
-                g = len(got & missing) / (len(seq) + (0.5 if fresh else 0))
-                if g > gain:
-                    best, gain = (fresh, seq), g
+        pool = rng.sample(cands, min(120, len(cands)))
+        best = search(pool, False, missing) or search(pool, True, missing) or search(cands, True, missing)
         if best is None:
             if refreshed >= 8:
                 break
             refreshed += 1
-            cands = plan.candidates(rng)          # other random picks of keys / partner units
+            cands = plan.candidates(rng)          # other random picks of keys / partner units / access times
             continue
         if best[0]:
             restart()
@@ -586,8 +609,12 @@ def run(ctx):
                 "units (pages repeated), then requests chosen until every feasible pair of tag values (pairwise_coverage) is "
                 "reached: same unit in consecutive requests, first touch / repeat / mixed, after an empty page, after a page that "
                 "used every unit, accessors run outside of any provider, several locales / namespaces in one page, plain and "
-                "interpolated keys at top level and in subgroups, defaulted keys. spec_C17 is evaluated per request against the "
-                "units that request used inside the provider; non-trivial = at least one unit used; distinct by (units, keys)",
+                "interpolated keys at top level and in subgroups, defaulted keys; per unit, accesses made LAZILY only (td! / t! "
+                "closures run while the HTML is rendered), EAGERLY only (td_string!, td_display!, t_string!, t_display! evaluated in "
+                "the body of the page component or of a component nested in it, while the provider's children are built), or both; "
+                "the page directly under <I18nContextProvider>, under an <I18nSubContextProvider>, or under a sub-context made with "
+                "the plain provide_i18n_subcontext() function. spec_C17 is evaluated per request against the "
+                "units that request used inside the provider, whenever they were accessed; non-trivial = at least one unit used; distinct by (units, keys)",
         "samples": samples, "string_classes_in_used_units": classes,
         "traces_validated_against_impl": len(metas),
         "disagreements": len(disagree), "spec_failures_on_impl": len(bad_spec),
@@ -597,7 +624,9 @@ def run(ctx):
         "the JavaScript engine is replaced by the JSON grammar (Coq decoder, Python json as a second opinion) and the HTML "
         "tokenizer's script-data end rule",
         "expected units are the parser's string tables (tied to the translation sources by C11)",
-        "the hydrate-side init_translations (wasm only) is not executed"])
+        "the hydrate-side init_translations (wasm only) is not executed",
+        "a page whose context is made with the plain provide_i18n_context()/init_i18n_context() functions and no "
+        "<I18nContextProvider> has no embedded script at all (only the component embeds one): outside the property"])
 
 
 def replay(ctx, path):
